@@ -12,6 +12,7 @@ import (
 	"net/http"
 	"net/http/httptest"
 	"net/url"
+	"os"
 	"runtime"
 	"sort"
 	"strconv"
@@ -866,7 +867,49 @@ func afConfigCheck() M {
 		}
 		rows = append(rows, row)
 	}
-	return M{"cfgcheck": rows, "raw": afCase{ConfigCheck: true}}
+	// the deployment's way in: variables in the process environment, LoadConfig as cmd/sso-auth does, every setting read back
+	var envRows []M
+	for _, env := range []map[string]string{
+		{"SERVER_HOST": afHost, "SESSION_COOKIE_SECRET": afCookieKey, "SESSION_KEY": afCodeKey, "CLIENT_PROXY_ID": "the-proxy", "CLIENT_PROXY_SECRET": "s3cret=with=equals",
+			"AUTHORIZE_PROXY_DOMAINS": "x.io,apps.y.io", "AUTHORIZE_EMAIL_DOMAINS": "x.io,y.io", "SESSION_LIFETIME": "2h", "SESSION_COOKIE_DOMAIN": "x.io",
+			"SESSION_COOKIE_HTTPONLY": "true", "SESSION_COOKIE_SECURE": "true", "SESSION_COOKIE_EXPIRE": "48h", "SESSION_COOKIE_REFRESH": "30m"},
+		{"SERVER_HOST": afHost, "SESSION_COOKIE_SECRET": afCookieKey, "SESSION_KEY": afCodeKey, "CLIENT_PROXY_ID": "p", "CLIENT_PROXY_SECRET": "q",
+			"AUTHORIZE_PROXY_DOMAINS": "z.io", "AUTHORIZE_EMAIL_ADDRESSES": "ann@x.io,bob@y.io", "SESSION_LIFETIME": "90s", "SESSION_COOKIE_SECURE": "false"},
+	} {
+		keys := []string{}
+		for k, v := range env {
+			os.Setenv(k, v)
+			keys = append(keys, k)
+		}
+		row := M{"env": env}
+		func() {
+			defer func() {
+				if x := recover(); x != nil {
+					row["panic"] = fmt.Sprint(x)
+				}
+			}()
+			conf, err := auth.LoadConfig()
+			row["loaded"] = err == nil
+			if err != nil {
+				row["error"] = err.Error()
+				return
+			}
+			pc := conf.ClientConfigs["proxy"]
+			row["got"] = M{"CLIENT_PROXY_ID": pc.ID, "CLIENT_PROXY_SECRET": pc.Secret,
+				"AUTHORIZE_PROXY_DOMAINS":   strings.Join(conf.AuthorizeConfig.ProxyConfig.Domains, ","),
+				"AUTHORIZE_EMAIL_DOMAINS":   strings.Join(conf.AuthorizeConfig.EmailConfig.Domains, ","),
+				"AUTHORIZE_EMAIL_ADDRESSES": strings.Join(conf.AuthorizeConfig.EmailConfig.Addresses, ","),
+				"SESSION_LIFETIME":          strconv.FormatInt(int64(conf.SessionConfig.SessionLifetimeTTL/time.Second), 10) + "s",
+				"SESSION_COOKIE_DOMAIN":     conf.SessionConfig.CookieConfig.Domain, "SESSION_COOKIE_SECRET": conf.SessionConfig.CookieConfig.Secret, "SESSION_KEY": conf.SessionConfig.Key,
+				"SESSION_COOKIE_HTTPONLY": strconv.FormatBool(conf.SessionConfig.CookieConfig.HTTPOnly), "SESSION_COOKIE_SECURE": strconv.FormatBool(conf.SessionConfig.CookieConfig.Secure),
+				"SESSION_COOKIE_EXPIRE": strconv.FormatInt(int64(conf.SessionConfig.CookieConfig.Expire/time.Second), 10) + "s", "SERVER_HOST": conf.ServerConfig.Host}
+		}()
+		for _, k := range keys {
+			os.Unsetenv(k)
+		}
+		envRows = append(envRows, row)
+	}
+	return M{"cfgcheck": rows, "cfgenv": envRows, "raw": afCase{ConfigCheck: true}}
 }
 
 // afProvRedeemRun: Redeem of each provider, built by its own constructor, against scripted token/userinfo answers.
